@@ -212,6 +212,12 @@ def make(I):
         return mk(z3.And(*acc), 'bool') if acc else True
 
 
+    def use_lemma(I, name):
+        """record that the facts stated next are the conclusion of the lemma contract `name` (the checker then requires that this
+        contract is proved in the same run)"""
+        I.ctx.ghost.setdefault('lemmas_used', set()).add(name)
+        return True
+
     def is_text(I, v):
         return isinstance(v, (str, Rope))
 
@@ -316,7 +322,7 @@ def make(I):
     ns = dict(fresh_real=F('fresh_real', fresh_real), fresh_int=F('fresh_int', fresh_int), fresh_bool=F('fresh_bool', fresh_bool),
               fact=F('fact', fact), assume=F('assume', assume), implies=F('implies', implies), ite=F('ite', ite),
               oblige=F('oblige', oblige), event=F('event', event), is_symbolic=F('is_symbolic', is_symbolic),
-              unsupported=F('unsupported', unsupported), uf_real=F('uf_real', uf_real), uf=F('uf', uf), split_first_line=F('split_first_line', split_first_line), uf_text=F('uf_text', uf_text), stub=F('stub', stub), is_text=F('is_text', is_text), text_isascii=F('text_isascii', text_isascii), exact_number_text=F('exact_number_text', exact_number_text), piece_value=F('piece_value', piece_value), text_equal=F('text_equal', text_equal), abstract_path_vertices=F('abstract_path_vertices', abstract_path_vertices), abstract_path_codes=F('abstract_path_codes', abstract_path_codes), abstract_outline_vertices=F('abstract_outline_vertices', abstract_outline_vertices), abstract_outline_codes=F('abstract_outline_codes', abstract_outline_codes), is_selection=F('is_selection', is_selection), selection_parts=F('selection_parts', selection_parts), is_nonfinite=F('is_nonfinite', is_nonfinite), lemma=F('lemma', lemma), general=F('general', general), arr_like=F('arr_like', arr_like), is_bool_scalar=F('is_bool_scalar', is_bool_scalar), is_bool_array=F('is_bool_array', is_bool_array), dtype_of=F('dtype_of', dtype_of), uf_bool=F('uf_bool', uf_bool),
+              unsupported=F('unsupported', unsupported), uf_real=F('uf_real', uf_real), uf=F('uf', uf), split_first_line=F('split_first_line', split_first_line), uf_text=F('uf_text', uf_text), stub=F('stub', stub), is_text=F('is_text', is_text), use_lemma=F('use_lemma', use_lemma), text_isascii=F('text_isascii', text_isascii), exact_number_text=F('exact_number_text', exact_number_text), piece_value=F('piece_value', piece_value), text_equal=F('text_equal', text_equal), abstract_path_vertices=F('abstract_path_vertices', abstract_path_vertices), abstract_path_codes=F('abstract_path_codes', abstract_path_codes), abstract_outline_vertices=F('abstract_outline_vertices', abstract_outline_vertices), abstract_outline_codes=F('abstract_outline_codes', abstract_outline_codes), is_selection=F('is_selection', is_selection), selection_parts=F('selection_parts', selection_parts), is_nonfinite=F('is_nonfinite', is_nonfinite), lemma=F('lemma', lemma), general=F('general', general), arr_like=F('arr_like', arr_like), is_bool_scalar=F('is_bool_scalar', is_bool_scalar), is_bool_array=F('is_bool_array', is_bool_array), dtype_of=F('dtype_of', dtype_of), uf_bool=F('uf_bool', uf_bool),
               arr_from_fn=F('arr_from_fn', arr_from_fn), arr_at=F('arr_at', arr_at), witness=F('witness', witness), is_array=F('is_array', is_array),
               cos=F('cos', N.np_cos), sin=F('sin', N.np_sin), sqrt=F('sqrt', lambda I, x: B.sqrt_(I, x)), PI=N.PI,
               deepcopy=F('deepcopy', lambda I, v: I.ext_modules and __import__('pyvc.stdlib_models', fromlist=['x']).deepcopy(I, v)),
